@@ -28,25 +28,40 @@ MANIFEST = {
             '(created_only_while_task_open, completed_task_has_no_running_child_started_later); unequal / non-iterable '
             'item lists, a failing items expression or an ill-typed concurrency are a declared error in the start '
             'transaction and nothing is ever started, reruns included (unevaluable_items_start_nothing); no index is '
-            'started twice and none >= n for ALL tables (index_started_once_all_tables). Two full statements are FALSE '
-            'of the unchanged code over the failure tables and kept as _full_fails (witnesses replayed, known findings) '
-            'with _partial for tables without failing inputs: an input that fails in a LATER concurrency round fails the '
-            'task while siblings are RUNNING, and a rerun of that task exceeds the concurrency limit.',
+            'started twice and none >= n for ALL tables (index_started_once_all_tables). Since repo patch 30 (the inputs of '
+            'ALL items are evaluated and validated against the action when the task is started or rerun, of the whole '
+            'portion otherwise, before any execution is created) every failure table either starts nothing at all or '
+            'gives the clean history (eval_failure_or_clean), hence running_le_concurrency_all_tables and '
+            'error_task_has_no_running_child hold at FULL strength over all tables; their former counter-witnesses '
+            '(an input failing in a later concurrency round with siblings RUNNING; the rerun that then exceeded the '
+            'limit) are corpus regressions.',
     'note': 'Engine-level: one transaction = one step (in-process tx_lock atomicity); multi-process interleavings '
-            'inside on_action_complete are serialised by the named lock and are not exhibited. Sub-workflow items are '
-            'not generated (actions only). Rerun is modelled for ERROR tasks (the REST API refuses others). The '
+            'inside on_action_complete are serialised by the named lock and are not exhibited. Sub-workflow items '
+            '(`workflow:`; the child succeeds / fails / is cancelled or stopped, children finish in any order) are '
+            'generated in ~28 % of the cases and compared with the same model; after a rerun of the failed task INSIDE '
+            'a child (_recursive_rerun) the model has no operation and only the statement monitors keep running '
+            '(two known findings there). Rerun is modelled for ERROR tasks (the REST API refuses others). The '
             'outcome of every evaluation is an oracle of the run (EvalSpec), fixed for the whole history; YAQL/Jinja '
-            'themselves are not modelled. Action-parameter VALIDATION and target evaluation, which the code does per item '
-            'inside the scheduling loop (a defect of its own, docs/C07.md X2), and a float concurrency (X1, repo patch 24 '
-            'offered) are outside the model and not generated.',
+            'themselves are not modelled; an input the action refuses (check_parameters) counts as a failing input. '
+            '`target:` evaluation and Action.instantiate, still done per item inside the scheduling loop, are outside '
+            'the model and not generated.',
 }
 RULE = ('stream withitems: generated workflows with one with-items task (n = 0..8 items from the input, concurrency '
         'absent / literal 1..n+1 (or 0) / expression <% $.c %> / task-defaults, std.echo or std.noop, optional retry '
         'policy, optional downstream task reading task(t1).result) x per-item outcome tables (success/error/cancel per '
         'attempt) x schedules (random / fifo / lifo) x optional rerun(s) (reset on/off, at quiescence or as soon as '
-        'the task is ERROR) x evaluation failures in ~40 % of the cases (the action input of chosen item indexes '
+        'the task is ERROR); ~30 % of the cases have SUB-WORKFLOW items (`workflow: sub x=<% $.i %>`, n <= 4, the child '
+        'has one or two tasks, the outcome table drives the action of its last task: the child ends SUCCESS / ERROR / '
+        'CANCELLED; a child may also be stopped with CANCELLED from outside; the executions of the task are then its '
+        'child workflow executions, `result pos outcome` is the transaction in which the child becomes final, '
+        'unhandled = completion jobs + child-completion messages in flight; all child-internal deliveries interleave '
+        'with everything else), half of those with n >= 2 with an INNER rerun of the failed task of a failed child '
+        '(while a sibling is RUNNING / after the parent task completed): from there on only the statement monitors '
+        'read the run, the model has no such operation; '
+        'x evaluation failures in ~40 % of the action cases (the action input of chosen item indexes '
         'fails to evaluate: division by zero inline / in an input dict / nested, conditional unknown function or '
-        'variable, non-dict dynamic input, Jinja - in the first portion or in a later concurrency round; the '
+        'variable, non-dict dynamic input, Jinja, or evaluates to parameters the action refuses - in the first '
+        'portion or in a later concurrency round; the '
         'with-items expression fails, is not iterable or gives lists of unequal length; `concurrency` evaluates to an '
         'ill-typed value) and other shapes of the items (dict, string, nested list, two lists of equal length); '
         'every committed transaction is one evaluation point of the model comparison. '
@@ -54,7 +69,8 @@ RULE = ('stream withitems: generated workflows with one with-items task (n = 0..
         'evaluation failure struck while a sibling item was RUNNING; distinct = '
         'distinct (case, schedule). stream withitems-exh: all outcome assignments x all orders of item results and '
         'completion jobs for n <= 2 (quick) / n <= 4 (thorough); every non-empty set of failing item inputs x '
-        'concurrency x all orders (+ rerun with and without reset) for n <= 2 / n <= 3.')
+        'concurrency x all orders (+ rerun with and without reset) for n <= 2 / n <= 3; 22 specs with sub-workflow '
+        'items (n = 2, concurrency absent / 1 / 2, six outcome assignments, all orders; rerun on/off after a failure).')
 TRUSTED = [
     'harness/engine_driver.py seams (post-commit thread, RPC client, scheduler, executor, clock, uuid) and '
     'snapshot(); harness/withitems_stream.py event -> model-operation mapping',
@@ -71,18 +87,10 @@ WITNESSES = [
     {'theorem': 'completes_iff_all_done_full_fails', 'n': 2, 'conc': None,
      'kind': 'cancelled-item-completes-task-before-all-items',
      'ops': [S, R(0, 'CANCELLED'), H]},
-    # the input of item 3 fails to evaluate; with limit 2 it is evaluated by the completion job that reaches it
-    {'theorem': 'error_task_has_no_running_child_full_fails', 'n': 4, 'conc': 2,
-     'eval': {'items': 'list', 'input': 'div-inline', 'bad': [3]},
-     'kind': 'task-completed-before-all-items',
-     'ops': [S, R(0, 'SUCCESS'), H, R(1, 'SUCCESS'), H]},
-    {'theorem': 'running_le_concurrency_all_tables_full_fails', 'n': 4, 'conc': 2,
-     'eval': {'items': 'list', 'input': 'div-inline', 'bad': [3]},
-     'kind': 'running-exceeds-concurrency',
-     'ops': [S, R(0, 'SUCCESS'), H, R(1, 'SUCCESS'), H, {'op': 'rerun', 'reset': True}]},
 ]
-# former counter-witnesses of index_started_once / rerun_only_failed (fixed by /repo 494951d1): now
-# regressions in corpus/C07 (k1_*, k2_*) that must run without any monitor hit or disagreement
+# former counter-witnesses of index_started_once / rerun_only_failed (fixed by /repo 494951d1) and of
+# running_le_concurrency_all_tables / error_task_has_no_running_child (fixed by repo patch 30): now
+# regressions in corpus/C07 (k1_*, k2_*, k4_*, k5_*) that must run without any monitor hit or disagreement
 
 
 def witness_case(drv, w):
@@ -158,6 +166,14 @@ def exhaustive_specs(ctx, max_n, rerun_max_n, rerun_limit=40):
     for (n, conc, outs, bad) in ws.exhaustive_eval_cases(rerun_max_n):
         for rr in (None, {'reset': True, 'when': 'quiescent'}, {'reset': False, 'when': 'quiescent'}):
             specs.append((n, conc, outs, rr, rerun_limit, bad))
+    # SUB-WORKFLOW items (n = 2; decision points: the run of each child's last action and the completion jobs): all
+    # orders for chosen outcome assignments x concurrency absent / 1 / 2, and a parent rerun after a failed round
+    for (n, conc, outs) in ws.exhaustive_cases(2):
+        if n == 2 and conc in (None, 1, 2) and outs in ('SS', 'SE', 'ES', 'EE', 'CS', 'SC'):
+            specs.append((n, conc, outs, None, None, None, True))
+    for outs in ('SE', 'ES'):
+        for reset in (True, False):
+            specs.append((2, 1, outs, {'reset': reset, 'when': 'quiescent'}, rerun_limit, None, True))
     rng = ctx.rng
     rng.shuffle(specs)
     # deal the expensive specs (many orders: large n, no or a wide limit) evenly over the workers
@@ -170,7 +186,7 @@ def correspond(ctx):
     replay_witnesses(ctx)
     k = 14
     specs = exhaustive_specs(ctx, ctx.n(2, 4), ctx.n(2, 3))
-    chunks = [{'n_cases': ctx.n(45, 300), 'specs': specs[i::k], 'limit': ctx.n(200, 340)} for i in range(k)]
+    chunks = [{'n_cases': ctx.n(42, 280), 'specs': specs[i::k], 'limit': ctx.n(200, 340)} for i in range(k)]
     par.run_parallel(ctx, 'harness.withitems_stream', 'run_both_chunk', chunks)
 
 
